@@ -64,7 +64,7 @@ struct kase {
 	struct event_base *base;
 	struct slot slot[MAXSLOT];
 	struct event *hour_ev, *started_ev, *poke_ev;
-	int poke[2];
+	int poke[2]; atomic_long n_highfd;
 	atomic_int hour_fired, running, stop;
 	atomic_long gen, iters;
 	atomic_int nonblock_guard;
@@ -201,6 +201,15 @@ static void slot_cb(evutil_socket_t fd, short what, void *arg)
 static void hour_cb(evutil_socket_t fd, short what, void *arg) { (void)fd; (void)what; (void)arg; atomic_store(&K.hour_fired, 1); }
 static void started_cb(evutil_socket_t fd, short what, void *arg) { (void)fd; (void)what; (void)arg; atomic_store(&K.running, 1); }
 static void poke_cb(evutil_socket_t fd, short what, void *arg) { char b[64]; (void)what; (void)arg; (void)__real_recv(fd, b, sizeof(b), MSG_DONTWAIT); }
+/* registered for EV_READ on a socket nobody ever writes to, and never activated by hand: any callback is one the backend
+ * made up (e.g. a result set that does not belong to the wait that just returned) */
+static void never_cb(evutil_socket_t fd, short what, void *arg)
+{
+	char b[8];
+	(void)arg;
+	if (__real_recv(fd, b, sizeof(b), MSG_PEEK | MSG_DONTWAIT) < 0 && (errno == EAGAIN || errno == EWOULDBLOCK))
+		viol("C09:spurious-callback", "read callback (what=0x%x) on fd %d, which is not readable and whose event nobody activated", what, (int)fd);
+}
 static void bevB_read(struct bufferevent *b, void *arg)
 {
 	struct evbuffer *in = bufferevent_get_input(b);
@@ -455,6 +464,13 @@ static int run_case(long idx, vh_rng rng)
 		if (s->kind == K_IO || s->kind == K_IOP || s->kind == K_IOW || s->chaos) {
 			evutil_socketpair(AF_UNIX, SOCK_STREAM, 0, s->sp); evutil_make_socket_nonblocking(s->sp[0]); evutil_make_socket_nonblocking(s->sp[1]);
 			if (s->kind == K_IO && !s->chaos) (void)__real_write(s->sp[1], "x", 1);   /* always readable, never drained */
+			if (s->kind == K_IO && !s->chaos && K.method == 2) {
+				/* select: a cross-thread event_add of a descriptor beyond the current fd_set size, made while the loop
+				 * thread sleeps in select(), must not touch the sets that call is using (seed C09-4) */
+				int hi = fcntl(s->sp[0], F_DUPFD, 130 + 90 * (i % 9));
+				if (hi >= 0 && hi < 1000) { __real_close(s->sp[0]); s->sp[0] = hi; atomic_fetch_add(&K.n_highfd, 1); }
+				else if (hi >= 0) __real_close(hi);
+			}
 		}
 		switch (s->chaos ? K_IOP : s->kind) {
 		case K_USER: s->ev = event_new(K.base, -1, 0, slot_cb, s); break;
@@ -464,7 +480,7 @@ static int run_case(long idx, vh_rng rng)
 		case K_IOW:
 			/* the fd already carries a registered reader (never readable); the ticket adds the first writer (always
 			 * writable): a backend that keeps its interest set in user space has to be woken to see it */
-			s->ev2 = event_new(K.base, s->sp[0], EV_READ | EV_PERSIST, poke_cb, NULL); event_add(s->ev2, NULL);
+			s->ev2 = event_new(K.base, s->sp[0], EV_READ | EV_PERSIST, never_cb, NULL); event_add(s->ev2, NULL);
 			s->ev = event_new(K.base, s->sp[0], EV_WRITE, slot_cb, s);
 			break;
 		default: s->ev = event_new(K.base, s->sp[0], EV_READ | EV_PERSIST, slot_cb, s); break;
@@ -579,6 +595,7 @@ static int run_case(long idx, vh_rng rng)
 	if (use_lockmon) { const char *lv = lm_take_violation(); if (lv) viol("C09:lock-ledger", "%s", lv); }
 
 	/* stats */
+	vh_stat_add("select_slots_on_high_fds", atomic_load(&K.n_highfd));
 	vh_stat_add("tickets_issued", atomic_load(&K.n_tickets));
 	vh_stat_add("tickets_awaited_and_serviced", atomic_load(&K.n_serviced_waited));
 	vh_stat_add("tickets_cancelled_by_del", atomic_load(&K.n_del_cancel));
